@@ -11,6 +11,7 @@ from pbt import models_legacy as L
 from pbt.runtime import Ctx, Labels, Part, require
 
 PROP = "C18"
+WARM_LEGACY = True  # first-use order of the legacy classes differs between shards
 RULE = (
     "programs of up to 40 operations over the legacy universe (leaf / inner nodes with required, "
     "optional, tuple, list and union child fields): new leaf, new inner over eligible children "
@@ -97,12 +98,24 @@ class Runner:
                     break
             req = rest.pop(0) if rest and k % 3 else None
             opt = rest.pop(0) if rest and (k // 2) % 2 else None
+            oseq = None
+            if (k // 4) % 3 == 1 and rest:
+                oseq = (rest.pop(),)  # optional tuple field
+            xtra = rest.pop() if (k // 4) % 3 == 2 and rest else None  # child field added by the subclass
             cut = len(rest) // 2
             items, lst = tuple(rest[:cut]), list(rest[cut:])
-            n = L.cls("LInner")(req=req, opt=opt, items=items, lst=lst, un=un, v=v % 3, origin=w.origin(o))
+            extra: dict = {}
+            if (k + v + o) % 6 == 0 and w.free_id("") and not any(x.id == "" for x in w.held):
+                extra["id"] = ""  # an explicit, legal, falsy id
+                self.lab.tag("empty-string-id")
+            if xtra is not None:
+                extra["extra"] = xtra
+            n = L.cls("LInnerX" if xtra is not None else "LInner")(req=req, opt=opt, items=items, lst=lst, un=un, oseq=oseq,
+                                                                    v=v % 3, origin=w.origin(o), **extra)
             exp = ([(req, "req", None)] if req is not None else []) + ([(opt, "opt", None)] if opt is not None else []) + \
                 [(x, "items", i) for i, x in enumerate(items)] + [(x, "lst", i) for i, x in enumerate(lst)] + \
-                ([(un, "un", None)] if un is not None else [])
+                ([(un, "un", None)] if un is not None else []) + [(x, "oseq", i) for i, x in enumerate(oseq or ())] + \
+                ([(xtra, "extra", None)] if xtra is not None else [])
         require(not n.detached and n.parent is None, "new-node-attached-root", f"step {w.step_no}")
         got = E.kids(n)
         require(len(got) == len(exp) and all(g[0] is e[0] and g[1:] == e[1:] for g, e in zip(got, exp)), "constructor-children", f"step {w.step_no}")
@@ -194,13 +207,13 @@ class Runner:
 
     def op_replace_child(self, s: int, cs: int, which: int) -> None:
         w = self.w
-        n = w.sel(s, lambda x: type(x).__name__ in ("LInner", "LReq"))
+        n = w.sel(s, lambda x: type(x).__name__ in ("LInner", "LInnerX", "LReq"))
         if n is None:
             return
         anc = {id(a) for a in w.ancestors_of(n)} | {id(x) for x in E.subtree(n)}
-        fn = "req" if type(n).__name__ == "LReq" else ["req", "opt", "un"][which % 3]
+        fn = "req" if type(n).__name__ == "LReq" else ["req", "opt", "un", "extra" if type(n).__name__ == "LInnerX" else "opt"][which % 4]
         want = L.UN_CLASSES if fn == "un" else None
-        if which % 4 == 3 and type(n).__name__ == "LInner":
+        if which % 5 == 4 and type(n).__name__ in ("LInner", "LInnerX"):
             self._replace(n, {fn: None})
             return
         ch = w.pick_children([cs], anc, want)
@@ -210,12 +223,12 @@ class Runner:
 
     def op_replace_seq(self, s: int, cs: list[int], mode: int) -> None:
         w = self.w
-        n = w.sel(s, lambda x: type(x).__name__ == "LInner")
+        n = w.sel(s, lambda x: type(x).__name__ in ("LInner", "LInnerX"))
         if n is None:
             return
         anc = {id(a) for a in w.ancestors_of(n)} | {id(x) for x in E.subtree(n)}
-        fn = "items" if mode % 2 else "lst"
-        cur = list(getattr(n, fn))
+        fn = ["lst", "items", "oseq"][mode % 3]
+        cur = list(getattr(n, fn) or ())
         new = w.pick_children(cs, anc)
         m = (mode // 2) % 4
         if m == 0:
@@ -226,7 +239,9 @@ class Runner:
             seq = list(reversed(cur)) + new[:1]
         else:
             seq = cur[:-1]
-        val = tuple(seq) if fn == "items" else list(seq)
+        val = list(seq) if fn == "lst" else tuple(seq)
+        if fn == "oseq" and not seq and mode % 2:
+            val = None
         self._replace(n, {fn: val})
 
     def op_replace_with(self, s: int, cs: int) -> None:
@@ -237,6 +252,8 @@ class Runner:
         was_att = not n.detached
         p, pf, pi = n.parent, n.parent_field, n.parent_index
         want = L.UN_CLASSES if (pf is not None and pf.name == "un") else None
+        if pf is not None and pf.name == "oseq" and was_att:
+            return  # the static type info of an optional sequence lists no node types: the swap is rejected (C19)
         exclude = {id(a) for a in w.ancestors_of(n)} | {id(x) for x in E.subtree(n)}
         if not was_att and not w.free_id(n.id):
             return  # stale receiver whose id is in use again: the swap would be rejected (C19)
@@ -264,7 +281,7 @@ class Runner:
 
     def op_replace_with_none(self, s: int) -> None:
         w = self.w
-        n = w.sel(s, lambda x: not x.detached and (x.parent is None or x.parent_field.name in ("items", "lst", "opt", "un")
+        n = w.sel(s, lambda x: not x.detached and (x.parent is None or x.parent_field.name in ("items", "lst", "opt", "un", "oseq", "extra")
                                                    or (x.parent_field.name == "req" and type(x.parent).__name__ == "LInner")))
         if n is None:
             return
@@ -353,6 +370,8 @@ class Runner:
             return
         if any(x.detached for x in E.subtree(n)) and not n.detached:
             return
+        if n.parent_field is not None and n.parent_field.name == "oseq":
+            return
         was_att = not n.detached
         if not was_att:
             return  # visitors are exercised on attached trees (the documented use)
@@ -406,7 +425,7 @@ class Runner:
         if not self._rules_ok(n, rules):
             return
         for x in E.subtree(n):
-            if rules.get(type(x).__name__) == "newleaf" and x.parent_field is not None and x.parent_field.name == "un":
+            if rules.get(type(x).__name__) == "newleaf" and x.parent_field is not None and x.parent_field.name in ("un", "oseq"):
                 return
         exp = self.expected_shape(n, rules)
         world = w
